@@ -149,6 +149,11 @@ func (c *Config) Get(format string) (info *Info, err error) {
 		// no overrides
 		return info, nil
 	}
+	// mergo copies pointers, not what they point to: detach the key ids from
+	// the configuration before the override is merged into them
+	info.Deb.Signature.KeyID = cloneString(info.Deb.Signature.KeyID)
+	info.RPM.Signature.KeyID = cloneString(info.RPM.Signature.KeyID)
+	info.APK.Signature.KeyID = cloneString(info.APK.Signature.KeyID)
 	if err = mergo.Merge(&info.Overridables, override, mergo.WithOverride); err != nil {
 		return nil, fmt.Errorf("failed to merge overrides into info: %w", err)
 	}
@@ -161,6 +166,14 @@ func (c *Config) Get(format string) (info *Info, err error) {
 	}
 	info.Contents = contents
 	return info, nil
+}
+
+func cloneString(s *string) *string {
+	if s == nil {
+		return nil
+	}
+	c := *s
+	return &c
 }
 
 // Validate ensures that the config is well typed.
